@@ -22,8 +22,11 @@ const actorKey ctxKeyT = 1
 // Its Calls are appended by the transport on the caller's goroutine.
 type actor struct {
 	Party string
-	mu    sync.Mutex
-	Calls []*rtCall
+	// caller is the context the caller handed to the client (nil: unknown). It lets the transport
+	// tell "the caller's context ended" from "http.Client.Timeout cancelled this attempt".
+	caller context.Context
+	mu     sync.Mutex
+	Calls  []*rtCall
 }
 
 func withActor(ctx context.Context, a *actor) context.Context {
@@ -32,21 +35,23 @@ func withActor(ctx context.Context, a *actor) context.Context {
 
 // rtCall is one RoundTrip made by the code under test.
 type rtCall struct {
-	Idx     int
-	Method  string
-	Path    string
-	Query   string
-	Body    []byte
-	Follow  bool          // http.Client is following a redirect (req.Response != nil)
-	Arrive  time.Duration // fake time at which the transport was entered
-	Aborted bool          // the caller's context ended while the call was in flight
-	AbortT  time.Duration
-	Out     *served // what the driver decided; set on the driver goroutine before the release
+	Idx      int
+	Method   string
+	Path     string
+	Query    string
+	Body     []byte
+	Follow   bool          // http.Client is following a redirect (req.Response != nil)
+	Arrive   time.Duration // fake time at which the transport was entered
+	Aborted  bool          // the caller's context ended while the call was in flight
+	TimedOut bool          // the request's own context ended (http.Client.Timeout) while the caller's is alive
+	AbortT   time.Duration // fake time of either
+	Out      *served       // what the driver decided; set on the driver goroutine before the release
 }
 
 // served is what the simulated server (the driver) answers to one RoundTrip.
 type served struct {
 	NetErr bool // RoundTrip returns an error, no response
+	Stall  bool // no answer at all: RoundTrip blocks until the request's context is done
 	Status int
 	Header http.Header
 	Body   []byte
@@ -76,6 +81,9 @@ func (o *served) isRedirect() bool {
 }
 
 func (o *served) String() string {
+	if o.Stall {
+		return "stall (no answer until the request is cancelled)"
+	}
 	if o.NetErr {
 		return "net.err"
 	}
@@ -123,6 +131,8 @@ func (b *bodyReader) Close() error { b.closed = true; return nil }
 // (party = the actor of the request's context) until the driver has decided the answer.
 type transport struct {
 	s *kernel.Sim
+	// onArrive, if set, is called (on the caller's goroutine) when an attempt enters the transport
+	onArrive func()
 }
 
 func (t *transport) RoundTrip(req *http.Request) (*http.Response, error) {
@@ -143,17 +153,66 @@ func (t *transport) RoundTrip(req *http.Request) (*http.Response, error) {
 	if !t.s.ShuttingDown() {
 		t.s.Observe(a.Party, fmt.Sprintf("attempt #%d %s %s follow=%v at %v", c.Idx, c.Method, c.Path, c.Follow, c.Arrive))
 	}
+	// ended records why an unanswered attempt came back: the caller's context, or only the
+	// request's (the per-attempt http.Client.Timeout)
+	ended := func() {
+		a.mu.Lock()
+		if a.caller == nil || a.caller.Err() != nil {
+			c.Aborted = true
+		} else {
+			c.TimedOut = true
+		}
+		c.AbortT = t.s.Now()
+		timedOut := c.TimedOut
+		a.mu.Unlock()
+		if timedOut && !t.s.ShuttingDown() {
+			t.s.Observe(a.Party, fmt.Sprintf("attempt #%d cancelled by the client's per-attempt timeout at %v", c.Idx, c.AbortT))
+		}
+	}
+	if t.onArrive != nil {
+		t.onArrive()
+	}
+	// timedOut hands the moment at which the client learns of a per-attempt timeout to the driver
+	// (a second seam): the client draws its back-off jitter from the global math/rand source right
+	// after, and two attempts timing out in the same fake instant would otherwise draw in an order
+	// only the Go scheduler knows.
+	timedOut := func(cause error) (*http.Response, error) {
+		if !c.TimedOut || a.caller == nil {
+			return nil, cause
+		}
+		d, err := t.s.Seam(a.caller, a.Party, "rt.timedout", req.Method+" "+req.URL.Path, c)
+		if err != nil { // the caller's context ended before the timeout was reported
+			a.mu.Lock()
+			c.TimedOut, c.Aborted, c.AbortT = false, true, t.s.Now()
+			a.mu.Unlock()
+			return nil, err
+		}
+		if d.Kind == "shutdown" {
+			return nil, errShutdown
+		}
+		return nil, cause
+	}
 	d, err := t.s.Seam(req.Context(), a.Party, "rt", req.Method+" "+req.URL.Path, c)
 	if err != nil {
-		a.mu.Lock()
-		c.Aborted = true
-		c.AbortT = t.s.Now()
-		a.mu.Unlock()
-		return nil, err
+		ended()
+		return timedOut(err)
 	}
 	o := c.Out
 	if d.Kind == "shutdown" || o == nil {
 		return nil, errShutdown
+	}
+	if o.Stall {
+		// a hung server: nothing comes back until the request is cancelled (caller's context,
+		// or http.Client.Timeout through the request context / the legacy Cancel channel)
+		select {
+		case <-req.Context().Done():
+		case <-req.Cancel: //nolint:staticcheck // http.Client.Timeout still signals custom transports this way
+		}
+		ended()
+		if e := req.Context().Err(); e != nil {
+			return timedOut(e)
+		}
+		return timedOut(errors.New("net/http: request canceled"))
 	}
 	if o.NetErr {
 		return nil, errInjectedNet
